@@ -43,7 +43,9 @@ def sweep_failures(m, cases, io, mo):
 def run(rep):
     res = C.proof_obligations(rep, 'Properties/C01.v')
     quick = rep.tier == 'quick'
-    corp = matcher.Corpus(rep, per_type=40 if quick else 300, maxlen=14 if quick else 24)
+    g0 = json.load(open(__import__('os').path.join(C.BUILD, 'gen.json'))) if __import__('os').path.exists(__import__('os').path.join(C.BUILD, 'gen.json')) else None
+    extra = matcher.incomplete_word_cases(g0, rep.seed, 25 if quick else 200) if g0 else []
+    corp = matcher.Corpus(rep, per_type=40 if quick else 300, maxlen=14 if quick else 24, extra_cases=extra)
     try:
         m = corp.m
         # --- direct judgement of the implementation
